@@ -86,6 +86,8 @@ class ParamsTrans:
             grad = self.tape.jacobian(
                 vals, self.vm.trainable_variables, unconnected_gradients="zero"
             )
+            # one array (shape of vals) per variable -> rows = components
+            grad = np.stack([np.reshape(i, (-1,)) for i in grad], axis=-1)
         if not keep:
             del self.tape
         # print(grad)
